@@ -320,7 +320,7 @@ theorem main_stepN (ft : Feat) (e : BEnv) (Γ : Ctx) (cfg : SerCfg) (pcfg : Pars
         have hmem : Ev.attr xsiType (.prim (.qname t)) ∈ [Ev.start q] ++
             (attrEvsT cfg mp.attributeVars fields xt ++ nilEvs mp.nillable) ++ X ++ [Ev.end q] := by
           simp [attrEvsT, typeEvs, hx, hne]
-        have := hgood t hmem hok
+        have := hgood t (Or.inl hmem) hok
         have hfind : (attrPairsT cfg M mp.attributeVars fields (some t) ++ nilAttr b).find?
             (fun x => decide (x.1 = xsiType)) = some (xsiType, qnameText M t) := by
           have h0 : (attrPairsN cfg mp.attributeVars fields).find? (fun x => decide (x.1 = xsiType)) = none := by
@@ -765,6 +765,9 @@ theorem main_stepN (ft : Feat) (e : BEnv) (Γ : Ctx) (cfg : SerCfg) (pcfg : Pars
               · simp [FN.fixedOK, hc] at h
             exact cls_bundle ft e Γ cfg pcfg M n hΓ IH hf MF.choices hc htk ht hd hm hinitC (hbodyE var hv) f'
               (by omega)
+          | qname hc hp hty hi htk hn hd =>
+            exact qname_bundle e Γ cfg pcfg M _ _ hf MF.choices (mixedContent_false MF) hc hp hty hi htk hn hd _
+              (hbodyE var hv) f' (by omega)
           | union hc hp hu hi htk hn hd =>
             exact (union_bundle e Γ cfg pcfg M _ _ hf (mixedContent_false MF) hc hp hu hi htk hn hd _
               (hbodyE var hv) f' (by omega)).toG hf MF.choices
